@@ -356,6 +356,39 @@ C09Clauses ==
           (Obs.psivals9[k][j + 1] - Obs.psivals9[k][j]) * Obs.bpsign > 0, "all")
 
 --------------------------------------------------------------------------
+(* C10 on grids *)
+\* (a) along every flux surface the points lower face -> centre -> upper face of every cell (guard cells included) advance in the same
+\*     direction of the oracle's tangent, and the code's own poloidal distance increases strictly along them
+\* (b) pair "nested": B is the same configuration with all ny doubled; every y-face (and cell centre) of A is a y-face of B
+FineY(y) == LET r == RegY(y)
+                off == IF HasLower(conn, r) THEN 0 ELSE cfg.G
+                k == y - RY0(r) - off
+            IN Y0(conn, Obs.B.ny, cfg.G, r) + off + 2 * k
+C10Clauses ==
+  IF Obs.kind = "single" THEN
+    /\ ClauseAt("PoloidalOrderStrict", \A x \in XS : \A y \in YS : Obs.step.c1[x + 1][y + 1] # NANV /\ Obs.step.c1[x + 1][y + 1] > 0
+                                                               /\ Obs.step.c2[x + 1][y + 1] # NANV /\ Obs.step.c2[x + 1][y + 1] > 0, "centre")
+    /\ ClauseAt("PoloidalOrderStrict", \A x \in XS : \A y \in YS : Obs.step.l1[x + 1][y + 1] # NANV /\ Obs.step.l1[x + 1][y + 1] > 0
+                                                               /\ Obs.step.l2[x + 1][y + 1] # NANV /\ Obs.step.l2[x + 1][y + 1] > 0, "xlow")
+    /\ ClauseAt("PoloidalDistanceStrict", \A x \in XS : \A y \in YS : Obs.pdstep.c1[x + 1][y + 1] # NANV /\ Obs.pdstep.c1[x + 1][y + 1] > 0
+                                                                  /\ Obs.pdstep.c2[x + 1][y + 1] # NANV /\ Obs.pdstep.c2[x + 1][y + 1] > 0, "centre")
+    /\ ClauseAt("PoloidalDistanceStrict", \A x \in XS : \A y \in YS : Obs.pdstep.l1[x + 1][y + 1] # NANV /\ Obs.pdstep.l1[x + 1][y + 1] > 0
+                                                                  /\ Obs.pdstep.l2[x + 1][y + 1] # NANV /\ Obs.pdstep.l2[x + 1][y + 1] > 0, "xlow")
+  ELSE
+    LET PA == Obs.pos.A  PB == Obs.pos.B IN
+    /\ ClauseAt("NestedSizes", Obs.B.NX = NX /\ Obs.B.G = cfg.G /\ Obs.B.nx = cfg.nx /\ Obs.B.topo = T /\ Obs.B.conn = conn
+                                /\ \A r \in 1..NR(T) : Obs.B.ny[r] = 2 * cfg.ny[r], "pair")
+    /\ ClauseAt("NestedFaces", \A x \in XS : \A y \in YS : IsGuard(y) \/
+          LET f == FineY(y) IN
+          /\ Near(PA.Rlo[x + 1][y + 1], PB.Rlo[x + 1][f + 1], 10) /\ Near(PA.Zlo[x + 1][y + 1], PB.Zlo[x + 1][f + 1], 10)
+          /\ Near(PA.Rhi[x + 1][y + 1], PB.Rhi[x + 1][f + 2], 10) /\ Near(PA.Zhi[x + 1][y + 1], PB.Zhi[x + 1][f + 2], 10)
+          /\ Near(PA.Rc[x + 1][y + 1], PB.Rhi[x + 1][f + 1], 10) /\ Near(PA.Zc[x + 1][y + 1], PB.Zhi[x + 1][f + 1], 10), "ylow")
+    /\ ClauseAt("NestedFaces", \A x \in XS : \A y \in YS : IsGuard(y) \/
+          LET f == FineY(y) IN
+          /\ Near(PA.Rk[x + 1][y + 1], PB.Rk[x + 1][f + 1], 10) /\ Near(PA.Zk[x + 1][y + 1], PB.Zk[x + 1][f + 1], 10)
+          /\ Near(PA.Rkhi[x + 1][y + 1], PB.Rkhi[x + 1][f + 2], 10) /\ Near(PA.Zkhi[x + 1][y + 1], PB.Zkhi[x + 1][f + 2], 10), "corners")
+
+--------------------------------------------------------------------------
 Observe ==
   /\ stage = "file"
   /\ CASE Obs.prop = "C01" -> C01Clauses
@@ -366,6 +399,7 @@ Observe ==
        [] Obs.prop = "C12" -> C12Clauses
        [] Obs.prop = "C16" -> C16Clauses
        [] Obs.prop = "C05" -> C05Clauses
+       [] Obs.prop = "C10" -> C10Clauses
        [] Obs.prop = "C06" -> C06Clauses
        [] OTHER -> TRUE
   /\ stage' = "observed"
